@@ -309,6 +309,12 @@ impl DatabaseIterator {
 
     /// Picks a random number of bytes that can be read before a compaction is scheduled.
     fn random_compaction_period(&mut self) -> usize {
+        #[cfg(feature = "verif")]
+        if let Some(period) = crate::verif::read_sample_period() {
+            // Test instrumentation: sample reads more often so that small data sets are sampled.
+            return Uniform::from(0..(2 * period)).sample(&mut self.rng) as usize;
+        }
+
         self.distribution.sample(&mut self.rng) as usize
     }
 
